@@ -88,6 +88,7 @@ WellFormed(F, id) ==
           [] p.kind = "bytes" -> /\ p.ref \in DOMAIN F /\ F[p.ref].kind = "bytes"
                                  /\ WellFormed(F, p.ref)
                                  /\ p.off + p.size <= SizeOf(F, p.ref)
+          [] OTHER -> FALSE         \* e.g. a part with both a blobRef and a bytesRef
 
 (* Everything a node (transitively) references is in the forest. *)
 RECURSIVE Closed(_, _)
@@ -179,12 +180,13 @@ RSeek(whence, off) ==
   /\ rPos' = rReply'.pos
   /\ UNCHANGED <<rF, rRoot>>
 (* Read(buffer of n): io.Reader allows any 1..n bytes while data remains; EOF with no bytes at the end *)
-RReadReplies(n) ==
-  LET size == SizeOf(rF, rRoot) IN
-  IF n = 0 THEN {RR("read", "ok", rPos, <<>>)}
-  ELSE IF rPos >= size THEN {RR("read", "eof", rPos, <<>>)}
-  ELSE {RR("read", "ok", rPos + k, ReadAt(rF, rRoot, rPos, k)) : k \in 1..Min2(n, size - rPos)}
-       \cup (IF size - rPos <= n THEN {RR("read", "eof", size, ReadAt(rF, rRoot, rPos, size - rPos))} ELSE {})
+ReadRepliesAt(F, id, pos, n) ==
+  LET size == SizeOf(F, id) IN
+  IF n = 0 THEN {RR("read", "ok", pos, <<>>)} \cup (IF pos >= size THEN {RR("read", "eof", pos, <<>>)} ELSE {})
+  ELSE IF pos >= size THEN {RR("read", "eof", pos, <<>>)}
+  ELSE {RR("read", "ok", pos + k, ReadAt(F, id, pos, k)) : k \in 1..Min2(n, size - pos)}
+       \cup (IF size - pos <= n THEN {RR("read", "eof", size, ReadAt(F, id, pos, size - pos))} ELSE {})
+RReadReplies(n) == ReadRepliesAt(rF, rRoot, rPos, n)
 RRead(n) ==
   /\ rReply' \in RReadReplies(n)
   /\ rPos' = rReply'.pos
